@@ -55,7 +55,8 @@ def gen(rng, quick):
     for bad in ([good[0], [1], le(2**512 - 1, 64)], [good[0], [1], le(2, 32) + good[2][32:]], [good[0], [1], good[2][:32] + le(L)]):
         ops.append({"op": "sig.verify_batch", "entries": [good, bad]})
         ops.append({"op": "sig.verify_batch", "entries": [bad]})
-    ops.append({"op": "sig.verify_batch", "entries": [good, good], "lens": [1, 2, 2]})
+    for lens in ([1, 2, 2], [2, 1, 2], [2, 2, 1], [1, 1, 2], [0, 0, 1], [2, 2, 0], [0, 2, 2]):
+        ops.append({"op": "sig.verify_batch", "entries": [good, good], "lens": lens})
     # multiscalar with None inputs and empty inputs
     ops.append({"op": "reset"})
     ops.append({"op": "ed.decompress", "in": [le(2)], "out": "NN"})
@@ -72,7 +73,7 @@ def run(ck):
     ck.mc("MC_Edwards", "MC_Edwards_29.cfg", note="every one-byte string has an outcome under Edwards decompression", workers=8)
     ck.mc("MC_Ristretto", "MC_Ristretto_29.cfg", note="every string / every 2-byte map input has an outcome", workers=8)
     ck.mc("MC_Montgomery", "MC_Montgomery_29.cfg", note="to_edwards total; Elligator2 output is never rejected (the expect() cannot fire)", workers=8)
-    specs = [("s64", True), ("v2", True), ("s32", True)] if quick else [(b, True) for b in ALL_BACKENDS] + [("s64", False)]
+    specs = [("s64", True), ("v2", True), ("s32", True), ("s64", False)] if quick else [(b, True) for b in ALL_BACKENDS] + [("s64", False)]
     # the property is not limited to release builds: one build with overflow checks and debug assertions runs the same script
     specs = [(b, t, "release") for b, t in specs] + [("s64", True, "checked")] + ([] if quick else [("v2", True, "checked")])
     bins = build_many([(b, t, p, ()) for b, t, p in specs], jobs=3)
